@@ -103,7 +103,8 @@ func ReadZiplistEntry2(buf *util.SliceBuffer, firstByte byte) []byte {
 		v := int16(buf.ReadUint16())
 		return []byte(strconv.FormatInt(int64(v), 10))
 	case rdbZiplistInt24:
-		v := buf.ReadUint24()
+		// 24 bit signed integer: sign-extend the three stored bytes
+		v := int32(buf.ReadUint24()<<8) >> 8
 		return []byte(strconv.FormatInt(int64(v), 10))
 	case rdbZiplistInt32:
 		v := int32(buf.ReadUint32())
